@@ -89,7 +89,9 @@ def object_schemas(values, tier):
                     if add != "absent":
                         s["additionalProperties"] = add
                     out.append(s)
-    pairs = [("a", "b"), ("a", "a-b"), ("class", "items"), ("a", "_p"), ("keys", "update"), ("a_b", "a-b")]
+    pairs = [("a", "b"), ("a", "a-b"), ("class", "items"), ("a", "_p"), ("keys", "update"), ("a_b", "a-b"),
+             # names that collide only after they are turned into attribute names, in both orders
+             ("a-b", "a_b"), ("a.b", "a b"), ("items", "items_1"), ("a-b", "a_b_1")]
     for n1, n2 in pairs:
         for v1, v2 in itertools.product(values[:3], repeat=2):
             for req in ([], [n1], [n1, n2]):
@@ -160,7 +162,8 @@ INSTANCES = [None, True, False, 0, 1, -1, 2, 3, 4, 10, 11, 1.5, 2.0, -0.5, "", "
              {"a": 1, "zz": 2}, {"a": 1, "zz": "x"}, {"zz": 2}, {"a": [1]}, {"a": [1, "x"]}, {"a": {"a": 1}}, {"a": {"a": "x"}},
              {"a_b": 1, "a-b": 2}, {"a": 1, "b": 2, "c": 3}, {"a": "ab"}, {"a": "abc"}, {"a": True}, {"a": 1.5}, {"a": 11}, {"a": 5},
              {"class": {"a": -1}}, {"class": {"a": None}}, {"a-b": 1, "a": 2}, {"_p": 1, "a": 2}, {"1x": 1}, {"1x": 1, "keys": 2}, {"keys": 2},
-             {"items": 2}]
+             {"items": 2}, {"a-b": 1, "a_b": 2}, {"a_b": 2}, {"a.b": 1, "a b": 2}, {"a b": 2}, {"a.b": 1}, {"items": 1, "items_1": 2},
+             {"items_1": 2}, {"a-b": 1, "a_b_1": 2}, {"a_b_1": 2}]
 
 
 def bounds(tier):
